@@ -40,6 +40,9 @@ type PropSpec struct {
 	// NeedOutcomes lists outcome substrings that must each be seen at least
 	// once (vacuity guard); a miss makes the check broken (exit 2), not a violation.
 	NeedOutcomes []string
+	// Extra runs once in the coordinator (plain enumeration that belongs to
+	// the property); its violations and coverage are merged into the report.
+	Extra func() ([]mc.Violation, map[string]any)
 }
 
 var props = map[string]*PropSpec{}
@@ -342,6 +345,18 @@ func finish(t *testing.T, p *PropSpec, reports []*mc.Report, errs []string, wall
 			all = append(all, v)
 		}
 	}
+	var extraCov map[string]any
+	if p.Extra != nil {
+		ev, cov := p.Extra()
+		extraCov = cov
+		for _, v := range ev {
+			k := v.Property + "|" + v.Key
+			if !vseen[k] {
+				vseen[k] = true
+				all = append(all, v)
+			}
+		}
+	}
 	// only this property's violations are judged here; others (e.g. C18
 	// deadlocks noticed by the shim) are reported as information
 	var mine, other []mc.Violation
@@ -393,6 +408,9 @@ func finish(t *testing.T, p *PropSpec, reports []*mc.Report, errs []string, wall
 		},
 		Assumptions: append(append([]string{}, mc.CommonAssumptions...), p.Assumptions...),
 		WallS:       wall.Seconds(), Violations: len(newV),
+	}
+	for k, v := range extraCov {
+		ev.Coverage[k] = v
 	}
 	if err := mc.WriteEvidence(ev); err != nil {
 		t.Fatal(err)
